@@ -378,3 +378,93 @@ def r_bdf_core(rep, f):
             rep.inconc(rule, key, "decided for %d of %d orders (%s)" % (done[rule], mo, (notes[rule] or ["?"])[0]))
         else:
             rep.ok(rule, key, texts[rule] % mo)
+
+
+INTERP = "methods::bdf::BDF::interpolate"
+
+
+def r_bdf_interp(rep, f):
+    """BDF dense output: with the per-state block that solve() stores after an accepted step, interpolate() is the Newton
+    backward interpolation polynomial of the difference table: it passes through the last k+1 solution values,
+    u(x_new - m*h) = y_(n+1-m) = sum_j (-1)^j C(m,j) D_j for m = 0..k (m = 0, 1 are the end-point identities u(x) = y_new,
+    u(xold) = y_old). Identities in the table entries, xold and h, for every order."""
+    key = "R-BDF-INTERP:%s" % INTERP
+    r = find_roles(f)
+    if r is None or INTERP not in f.bodies:
+        rep.inconc("R-BDF-INTERP", key, "BDF::solve / BDF::interpolate not identified")
+        return
+    rep.fn(INTERP)
+    cx0 = Cx(f)
+    mo = max_order_of(f, cx0) or 5
+    rows = mo + 3
+    top = r.top
+    i_acc = next((i for i, e in enumerate(top) if e.get("k") == "AssignOp" and tast.is_field_write(e, "Steps::accepted")), None)
+    i_cb = next((i for i, e in enumerate(top) if i_acc is not None and i > i_acc and tast.contains(e, lambda z: z.get("k") == "MethodCall" and z.get("def") == SOLOUT)), None)
+    if i_acc is None or i_cb is None:
+        rep.inconc("R-BDF-INTERP", key, "acceptance region of BDF::solve not identified")
+        return
+    # the buffer handed to the step interpolant
+    cont_id = None
+    for c_ in tast.find(top[i_cb], lambda z: z.get("k") == "Call" and (z.get("def") or "").endswith("StepInterpolant::new") or
+                        (z.get("k") == "Call" and "StepInterpolant" in (z.get("def") or "") and z.get("args"))):
+        a0 = c_["args"][0]
+        while a0 is not None and a0.get("k") in ("AddrOf", "DropTemps", "Unary"):
+            a0 = a0.get("e")
+        if a0 is not None and a0.get("k") == "Path" and a0.get("res") == "local":
+            cont_id = a0["id"]
+    if cont_id is None:
+        rep.inconc("R-BDF-INTERP", key, "the buffer handed to StepInterpolant::new was not found")
+        return
+    region = [e for e in top[i_acc + 1:i_cb] if cont_id in CX.written_locals(e)]
+    if not region:
+        rep.inconc("R-BDF-INTERP", key, "no statement fills the dense-output block after acceptance")
+        return
+    block = None
+    bad = []
+    xold, h, t = Poly.atom("xold"), Poly.atom("h"), Poly.atom("t")
+    for k in range(1, mo + 1):
+        c = Cx(f)
+        env = base_env(r, k, rows)
+        dn = r.locals[r.d][0]
+        # size of the block: evaluated from the allocation `vec![0.0; n * BLOCK]` before the loop, with n = 1
+        size = None
+        for l in tast.find(r.body["body"], lambda z: z.get("k") == "Let" and any(pb["id"] == cont_id for pb in tast.find(z["pat"], lambda q: q.get("k") == "PBind")) and z.get("init") is not None):
+            try:
+                v = c.ev(l["init"], dict(env))
+                if isinstance(v, list):
+                    size = len(v)
+            except CxUnknown:
+                pass
+        if size is None:
+            rep.inconc("R-BDF-INTERP", key, "size of the dense-output block not evaluated")
+            return
+        block = size
+        env[cont_id] = [Poly() for _ in range(size)]
+        sk = run_best_effort(c, region, env)
+        if sk:
+            rep.inconc("R-BDF-INTERP", key, "order %d: writer of the dense block not evaluated (%s)" % (k, sk[0][1]))
+            return
+        cont = env[cont_id]
+        yi = [Poly()]
+        try:
+            Cx(f).call_fn(INTERP, [t, yi, list(cont), xold, h])
+        except CxUnknown as ex:
+            rep.inconc("R-BDF-INTERP", key, "order %d: interpolate not evaluated (%s)" % (k, ex))
+            return
+        u = yi[0]
+        D = [Poly.atom("%s_%d" % (dn, j)) for j in range(rows)]
+        for m in range(0, k + 1):
+            um = u.subst({"t": xold + h - Poly.const(m) * h})
+            want = Poly()
+            for j in range(m + 1):
+                want = want + Poly.const(Fraction((-1) ** j * comb(m, j))) * D[j]
+            if um != want:
+                what = "u(x) = y_new" if m == 0 else "u(xold) = y_old" if m == 1 else "u(x - %d h) = y_(n+1-%d)" % (m, m)
+                bad.append("order %d: the interpolant at x - %d*h is %s, not %s (%s fails)" % (k, m, repr(um)[:100], repr(want)[:80], what))
+                break
+        if bad:
+            break
+    if bad:
+        rep.violation("R-BDF-INTERP", key, bad[0], f.bodies[INTERP].get("sp"))
+    else:
+        rep.ok("R-BDF-INTERP", key, "orders 1..%d: solve() stores a %d-slot block per state and interpolate() passes through the last k+1 solution values (in particular u(xold) = y_old, u(x) = y_new)" % (mo, block))
